@@ -194,6 +194,7 @@ def gen(rng, m, l=16, f=8, n_steps=(3, 8), ops=CHEAP, n_inputs=(3, 5), features=
     spec = {'l': l, 'f': f, 'inputs': inputs, 'steps': steps, 'sleepy': None, 'barrier_at': None}
     if features:
         spec['barrier_at'] = rng.choice([None, None, rng.randint(0, max(0, len(steps)))])
+        spec['yield_at'] = {str(rng.randrange(max(1, len(steps)))): rng.randint(1, 4) for _ in range(rng.choice([0, 1, 1, 2]))}
     return spec
 
 
@@ -278,6 +279,8 @@ def build(spec, on_node=None, open_all=True):
                 await mpc.barrier()
             if spec.get('sleepy') == pid and k == 1:
                 await asyncio.sleep(0)
+            for _ in range((spec.get('yield_at') or {}).get(str(k), 0)):
+                await asyncio.sleep(0)           # every party yields to its event loop here (symmetric): e.g. local async I/O
             r = apply_op(mpc, secfxp, op, [nodes[i] for i in args], c)
             nodes.append(r)
             if on_node is not None:
